@@ -166,7 +166,7 @@ Record Result := mkResult {
 }.
 
 (* error classes (errors.Is) *)
-(* EPanic: the call panicked (recovered by the harness) *)
+(* EPanic: the call panicked (recovered by the harness); the model never produces it *)
 Inductive Err := ENone | EInvalidArgument | ENotLeader | EMaintenance | EBackpressured | ECacheMiss | EOther | EPanic.
 
 Definition err_eqb (a b : Err) : bool :=
@@ -495,18 +495,12 @@ Definition appendCachedObserved (ca : Cache) (e : Event) : (Err * option Result)
 Definition tsnap_of_canon (c : bytes) : option bytes :=
   if bytes_eqb c (hx "6e756c6c") then None else Some c.   (* the JSON literal null *)
 
-(* DEFECT transcribed from the code: for a non-empty payload that is the JSON
-   literal null, json.Unmarshal(payload, &body) succeeds and sets the map
-   [body] to nil; with a non-empty snapshot the next statement assigns
-   body["snapshot"] and panics ("assignment to entry in nil map"). *)
-Definition json_null : bytes := hx "6e756c6c".
-Definition merge_panics (p : Payload) (s : Snap) : bool :=
-  negb (is_empty (s_raw s)) && negb (is_empty (p_raw p)) && bytes_eqb (p_canon p) json_null.
-
+(* a payload that is the JSON literal null unmarshals into a nil map, which the code
+   replaces by an empty one (fix a05aa1e4b): it merges like the empty object; its views
+   say so already (p_obj, no snapshot, decodes into the zero terminal struct) *)
 (* an empty payload is not unmarshalled at all: it merges like the empty object *)
 Definition merge_decodes (p : Payload) : bool := is_empty (p_raw p) || p_tok p.
 
-(* defined for every input; callers test [merge_panics] first *)
 Definition mergeMessageEventTerminalPayload (p : Payload) (s : Snap) : Payload :=
   if is_empty (s_raw s) then p
   else if p_obj p then
@@ -540,17 +534,6 @@ Definition mergeTerminalPayload (ca : Cache) (e : Event) : Event :=
     | Some state =>
       if is_empty (st_key state) || is_empty (s_raw (st_snap state)) then e
       else with_payload e (mergeMessageEventTerminalPayload (e_payload e) (st_snap state))
-    end
-  end.
-
-Definition mergeTerminalPayload_panics (ca : Cache) (e : Event) : bool :=
-  isMessageEventTerminalEvent (e_etype e) &&
-  match find_session ca (e_channel e) (e_ctype e) (e_msgno e) with
-  | None => false
-  | Some session =>
-    match assoc (e_key e) (ss_states session) with
-    | None => false
-    | Some state => negb (is_empty (st_key state)) && merge_panics (e_payload e) (st_snap state)
     end
   end.
 
@@ -679,8 +662,6 @@ Definition appendMessageEventFinishLocal (st : NodeSt) (e : Event) (fail : bool)
   let openStates := openStatesForFinish (n_cache st) e in
   if nil_b openStates && negb (p_hassnap (e_payload e))
   then (mkAppendOut ECacheMiss None [], st) else
-  if existsb (fun s => merge_panics (e_payload e) (st_snap s)) openStates
-  then (mkAppendOut EPanic None [], st) else      (* finishFlushMessageEvent panics; nothing was proposed *)
   let events := map (finishFlushMessageEvent e) openStates ++ [e] in
   match propose_events st events fail with
   | (Some rs, st') =>
@@ -703,7 +684,6 @@ Definition appendMessageEventLocal (st : NodeSt) (e : Event) (fail : bool) : App
       (mkAppendOut err res [], set_cache st ca)
     else if bytes_eqb (e_etype e) EventTypeStreamFinish then appendMessageEventFinishLocal st e fail
     else if isMessageEventTerminalEvent (e_etype e) then
-      if mergeTerminalPayload_panics (n_cache st) e then (mkAppendOut EPanic None [], st) else
       let e' := mergeTerminalPayload (n_cache st) e in
       match propose_events st [e'] fail with
       | (Some rs, st') =>
